@@ -77,7 +77,7 @@ def check_program(arg):
     if ref.kind != "tree":
         return [("generator", "canonical program rejected", dict(source=canon))]
     rng = random.Random(seed * 131 + v)
-    case = ("keep", "upper", "lower")[v % 3]
+    case = ("keep", "upper", "lower", "names")[v % 4]
     L = layout.free_layout(st, rng, gen.USER_NAMES, case=case, comments=True, p_comment=0.3, p_break=0.5, p_join=0.3)
     o = fp.parse(L.text(), std=std, ignore_comments=True)
     rep = dict(std=std, source=L.text(), canonical=canon, features=L.features)
@@ -190,7 +190,7 @@ def run(ctx):
         else:
             nsmall += r[0]
             failures += r[1]
-    jobs = [(("f2003", "f2008")[k % 2], ctx.seed * 61 + k // 3, k % 3) for k in range(ctx.n(150, 6000))]
+    jobs = [(("f2003", "f2008")[k % 2], ctx.seed * 61 + k // 4, k % 4) for k in range(ctx.n(200, 8000))]
     for job, (st, r) in zip(jobs, pool.pmap(check_program, jobs, chunksize=6)):
         if st != "ok":
             failures.append(("harness_error", r[:300], dict(job=job)))
@@ -208,8 +208,8 @@ def run(ctx):
                rule="(a) six small statements: EVERY single break point (each token boundary, each position inside "
                     "each literal) x leading '&' x 5 kinds of lines in between x trailing comment x indentation: "
                     "same items as the one-line form; (b) generated programs in random layouts (continuations, "
-                    "comments, ';' joins, indentation, keyword case): tree(L(P)) == tree(canonical(P)) up to case "
-                    "when the case was changed; (c) %d pairs of adjacent keywords written with 0 (where the standard makes "
+                    "comments, ';' joins, indentation, keyword case, the case of every occurrence of a name chosen on its own): "
+                    "tree(L(P)) == tree(canonical(P)) up to case when the case was changed; (c) %d pairs of adjacent keywords written with 0 (where the standard makes "
                     "the blank optional), 2 and 5 blanks: the tree of the one-blank spelling" % len(COMPOUND),
                samples=[dict(job=list(jobs[0]))])
     return common.finish(ctx, proof, corr, e2e, extra_assumptions=[
